@@ -201,6 +201,9 @@ func (handler *Handler) loadByteArray(source []byte) (net1 *dhcpSubnet, net2 *dh
 	// Careful: Yaml does not set private fields in unmarshaled structured.
 	//          so the v.subnet is nil and will cause a fatal error
 	if table.Leases != nil {
+		if net1 == nil {
+			return nil, nil, nil, fmt.Errorf("fail to load leases : missing net1")
+		}
 		for _, v := range table.Leases {
 			// MUST set v.subnet before printing to avoid fatal error
 			//      when printing v
